@@ -116,4 +116,157 @@ theorem C40_no_deadlock {s : St} (h : Reachable LockGraph.edges s) : ¬ ∃ ts, 
 -- non-vacuity: the extracted graph is not empty, and a two-thread state that violates the discipline does deadlock
 example : LockGraph.edges ≠ [] := by decide
 
+/-! ## Lock discipline: the listed guarded fields are only touched with their lock held
+
+`Generated.LockGraph.accesses` (re-extracted from the source on every run by `harness/cmd/lockgraph/guards.go`)
+lists EVERY syntactic access `x.f` to a field of a struct that owns a mutex, in every function of package
+webrtc, internal/* and pkg/* — 0 read, 1 write (assignment, `++`, element or sub-field assignment,
+address taken), 2 method call on the field's value, either directly (`x.f.M()`) or through a local
+variable loaded from the field in the same function (`v := x.f; …; v.M()`); element reads / writes and
+`range` through a local copy of a slice or map field (`bs := x.f; for … range bs`) count as reads / writes
+of the field — with the guard relations
+that MUST hold there: a forward must-analysis (intersection at joins, loops to a fixpoint, break /
+continue / return followed, deferred unlocks and closures run at the exits), where a lock only counts
+for an access on the SAME base expression (`s.mu` for `s.remainder`: `self:…`) or on the owner of the
+sub-object it was taken on (`s.rtpTrack.mu` for `s.packetizer`: `via rtpTrack:…`), and unexported,
+non-escaping helpers inherit the intersection of what all their static callers hold.
+
+What `C40_guarded_accesses` implies: for the fields named in `expectedSpec`, in every function of the
+analysed packages, every read happens under the named lock (read or write mode), every write under the
+write lock, and — for the `operations` queue and the sample track's `packetizer` / `sequencer` — every
+method call on the object behind the field happens under the named mutex; so two such accesses to the same
+object from two goroutines are ordered by that mutex.  This is the rule that seeded change C40-3 breaks
+(`packetizer.Packetize` moved behind `s.mu.Unlock()`: row kind 2 of `TrackLocalStaticSample.packetizer`
+loses `self:TrackLocalStaticSample.mu/W`), and that `GeneratePadding` broke before its repair.
+
+What it does NOT imply: (1) anything about fields that are not listed (e.g. `DataChannel.dataChannel`, which is
+published before an atomic state change and read behind a test of that state); (2) anything about uses of
+the object behind a field other than method calls (and, for slices and maps, element accesses) made in the
+function that loaded it — a value that is passed on, stored, returned or captured by a closure is not followed; (3) freedom from races inside the called
+object itself (the rtp packetizer is assumed to need external serialisation — that is why the rule asks
+for the mutex — but calls made under DIFFERENT locks by other code paths of the dependency are invisible);
+(4) identity of objects beyond syntax: two names for one object are treated as different (reported as
+unguarded, never wrongly accepted), a re-assigned base variable forgets its locks; (5) accesses through
+reflection, unsafe, or pointers obtained earlier with `&x.f` (taking the address is itself counted as a
+write).  Data-race freedom of the package as a whole is still only searched by the race-detector scenarios. -/
+
+/-- soundness of the decidable check: it is exactly the ∀-statement over the table -/
+theorem C40_guardedOk_sound {as : List Access} {sp : List Spec} (h : guardedOk as sp = true) :
+    ∀ a ∈ as, ∀ s ∈ sp, s.1 = a.1 → s.2.1 = a.2.1 →
+      a.2.2.1 = true ∨ ∃ g ∈ s.2.2, g ∈ a.2.2.2 := by
+  intro a ha s hs hf hk
+  unfold guardedOk at h
+  rw [List.all_eq_true] at h
+  have h1 := h a ha
+  unfold accessOk at h1
+  rw [List.all_eq_true] at h1
+  have h2 := h1 s hs
+  simp only [Bool.or_eq_true, Bool.not_eq_true', Bool.and_eq_false_iff, beq_eq_false_iff_ne, ne_eq,
+    List.any_eq_true, List.contains_eq_mem, decide_eq_true_eq] at h2
+  rcases h2 with (h3 | h3) | h3
+  · rcases h3 with h3 | h3
+    · exact absurd hf h3
+    · exact absurd hk h3
+  · exact Or.inl h3
+  · exact Or.inr h3
+
+/-- The guarded-field specification, in words: (`Type.field`, kind, guards of which one must be held). Written
+    here by hand; `C40_guard_spec_pinned` makes sure it is the one the extractor checked. -/
+def expectedSpec : List (String × Nat × List String) := [
+  ("TrackLocalStaticRTP.bindings", 0, ["self:TrackLocalStaticRTP.mu/R", "self:TrackLocalStaticRTP.mu/W"]),
+  ("TrackLocalStaticRTP.bindings", 1, ["self:TrackLocalStaticRTP.mu/W"]),
+  ("TrackLocalStaticSample.packetizer", 0, ["via rtpTrack:TrackLocalStaticRTP.mu/R", "via rtpTrack:TrackLocalStaticRTP.mu/W"]),
+  ("TrackLocalStaticSample.packetizer", 1, ["via rtpTrack:TrackLocalStaticRTP.mu/W"]),
+  ("TrackLocalStaticSample.sequencer", 0, ["via rtpTrack:TrackLocalStaticRTP.mu/R", "via rtpTrack:TrackLocalStaticRTP.mu/W"]),
+  ("TrackLocalStaticSample.sequencer", 1, ["via rtpTrack:TrackLocalStaticRTP.mu/W"]),
+  ("TrackLocalStaticSample.clockRate", 0, ["via rtpTrack:TrackLocalStaticRTP.mu/R", "via rtpTrack:TrackLocalStaticRTP.mu/W"]),
+  ("TrackLocalStaticSample.clockRate", 1, ["via rtpTrack:TrackLocalStaticRTP.mu/W"]),
+  ("TrackLocalStaticSample.packetizer", 2, ["self:TrackLocalStaticSample.mu/W"]),
+  ("TrackLocalStaticSample.sequencer", 2, ["self:TrackLocalStaticSample.mu/W"]),
+  ("TrackLocalStaticSample.remainder", 0, ["self:TrackLocalStaticSample.mu/W"]),
+  ("TrackLocalStaticSample.remainder", 1, ["self:TrackLocalStaticSample.mu/W"]),
+  ("operations.ops", 0, ["self:operations.mu/W"]),
+  ("operations.ops", 1, ["self:operations.mu/W"]),
+  ("operations.ops", 2, ["self:operations.mu/W"]),
+  ("operations.busyCh", 0, ["self:operations.mu/W"]),
+  ("operations.busyCh", 1, ["self:operations.mu/W"]),
+  ("operations.busyCh", 2, ["self:operations.mu/W"]),
+  ("operations.isClosed", 0, ["self:operations.mu/W"]),
+  ("operations.isClosed", 1, ["self:operations.mu/W"]),
+  ("operations.isClosed", 2, ["self:operations.mu/W"]),
+  ("DataChannel.onMessageHandler", 0, ["self:DataChannel.mu/R", "self:DataChannel.mu/W"]),
+  ("DataChannel.onMessageHandler", 1, ["self:DataChannel.mu/W"]),
+  ("DataChannel.onOpenHandler", 0, ["self:DataChannel.mu/R", "self:DataChannel.mu/W"]),
+  ("DataChannel.onOpenHandler", 1, ["self:DataChannel.mu/W"]),
+  ("DataChannel.openHandlerOnce", 0, ["self:DataChannel.mu/R", "self:DataChannel.mu/W"]),
+  ("DataChannel.openHandlerOnce", 1, ["self:DataChannel.mu/W"]),
+  ("DataChannel.onDialHandler", 0, ["self:DataChannel.mu/R", "self:DataChannel.mu/W"]),
+  ("DataChannel.onDialHandler", 1, ["self:DataChannel.mu/W"]),
+  ("DataChannel.dialHandlerOnce", 0, ["self:DataChannel.mu/R", "self:DataChannel.mu/W"]),
+  ("DataChannel.dialHandlerOnce", 1, ["self:DataChannel.mu/W"]),
+  ("DataChannel.onCloseHandler", 0, ["self:DataChannel.mu/R", "self:DataChannel.mu/W"]),
+  ("DataChannel.onCloseHandler", 1, ["self:DataChannel.mu/W"]),
+  ("DataChannel.closeHandlerOnce", 0, ["self:DataChannel.mu/R", "self:DataChannel.mu/W"]),
+  ("DataChannel.closeHandlerOnce", 1, ["self:DataChannel.mu/W"]),
+  ("DataChannel.onBufferedAmountLow", 0, ["self:DataChannel.mu/R", "self:DataChannel.mu/W"]),
+  ("DataChannel.onBufferedAmountLow", 1, ["self:DataChannel.mu/W"]),
+  ("DataChannel.onErrorHandler", 0, ["self:DataChannel.mu/R", "self:DataChannel.mu/W"]),
+  ("DataChannel.onErrorHandler", 1, ["self:DataChannel.mu/W"]),
+  ("DataChannel.isGracefulClosed", 0, ["self:DataChannel.mu/R", "self:DataChannel.mu/W"]),
+  ("DataChannel.isGracefulClosed", 1, ["self:DataChannel.mu/W"]),
+  ("DataChannel.detachCalled", 0, ["self:DataChannel.mu/R", "self:DataChannel.mu/W"]),
+  ("DataChannel.detachCalled", 1, ["self:DataChannel.mu/W"]),
+  ("DataChannel.bufferedAmountLowThreshold", 0, ["self:DataChannel.mu/R", "self:DataChannel.mu/W"]),
+  ("DataChannel.bufferedAmountLowThreshold", 1, ["self:DataChannel.mu/W"]),
+  ("TrackRemote.peekedPackets", 0, ["self:TrackRemote.mu/R", "self:TrackRemote.mu/W"]),
+  ("TrackRemote.peekedPackets", 1, ["self:TrackRemote.mu/W"]),
+  ("TrackRemote.payloadType", 0, ["self:TrackRemote.mu/R", "self:TrackRemote.mu/W"]),
+  ("TrackRemote.payloadType", 1, ["self:TrackRemote.mu/W"]),
+  ("TrackRemote.codec", 0, ["self:TrackRemote.mu/R", "self:TrackRemote.mu/W"]),
+  ("TrackRemote.codec", 1, ["self:TrackRemote.mu/W"]),
+  ("TrackRemote.kind", 0, ["self:TrackRemote.mu/R", "self:TrackRemote.mu/W"]),
+  ("TrackRemote.kind", 1, ["self:TrackRemote.mu/W"]),
+  ("TrackRemote.ssrc", 0, ["self:TrackRemote.mu/R", "self:TrackRemote.mu/W"]),
+  ("TrackRemote.ssrc", 1, ["self:TrackRemote.mu/W"]),
+  ("TrackRemote.rtxSsrc", 0, ["self:TrackRemote.mu/R", "self:TrackRemote.mu/W"]),
+  ("TrackRemote.rtxSsrc", 1, ["self:TrackRemote.mu/W"]),
+  ("TrackRemote.id", 0, ["self:TrackRemote.mu/R", "self:TrackRemote.mu/W"]),
+  ("TrackRemote.id", 1, ["self:TrackRemote.mu/W"]),
+  ("TrackRemote.streamID", 0, ["self:TrackRemote.mu/R", "self:TrackRemote.mu/W"]),
+  ("TrackRemote.streamID", 1, ["self:TrackRemote.mu/W"]),
+  ("ICETransport.gatherer", 0, ["self:ICETransport.lock/R", "self:ICETransport.lock/W"]),
+  ("ICETransport.gatherer", 1, ["self:ICETransport.lock/W"]),
+  ("mux.Mux.endpoints", 0, ["self:mux.Mux.lock/W"]),
+  ("mux.Mux.endpoints", 1, ["self:mux.Mux.lock/W"]),
+  ("mux.Mux.endpoints", 2, ["self:mux.Mux.lock/W"]),
+  ("mux.Mux.pendingPackets", 0, ["self:mux.Mux.lock/W"]),
+  ("mux.Mux.pendingPackets", 1, ["self:mux.Mux.lock/W"]),
+  ("mux.Mux.pendingPackets", 2, ["self:mux.Mux.lock/W"])
+]
+
+/-- the generated specification is the one written above … -/
+theorem C40_guard_spec_pinned : LockGraph.guardSpecText = expectedSpec := by decide
+
+/-- … and its numeric form is its translation through the generated name tables -/
+theorem C40_guard_spec_encoding :
+    LockGraph.guardSpec = encodeSpec LockGraph.fieldNames LockGraph.guardNames expectedSpec := by decide
+
+set_option maxRecDepth 100000 in
+/-- the check on the table extracted from the current source -/
+theorem C40_guard_table_ok : guardedOk LockGraph.accesses LockGraph.guardSpec = true := by decide +kernel
+
+/-- For every access to a listed field, in every function of the analysed packages: the base object is still
+    private to the function that created it, or one of the listed guards is held. -/
+theorem C40_guarded_accesses :
+    ∀ a ∈ LockGraph.accesses, ∀ s ∈ LockGraph.guardSpec, s.1 = a.1 → s.2.1 = a.2.1 →
+      a.2.2.1 = true ∨ ∃ g ∈ s.2.2, g ∈ a.2.2.2 :=
+  C40_guardedOk_sound C40_guard_table_ok
+
+-- non-vacuity: the specification speaks about accesses that exist (the sample track's packetizer is called
+-- somewhere), and the check can fail (an access without its guard is rejected)
+set_option maxRecDepth 100000 in
+example : LockGraph.accesses.any (fun a => LockGraph.guardSpec.any (fun s => s.1 == a.1 && s.2.1 == a.2.1 && s.2.1 == 2)) = true := by decide
+example : guardedOk [(0, 2, false, [])] [(0, 2, [7])] = false := by decide
+example : guardedOk [(0, 2, false, [7])] [(0, 2, [7])] = true := by decide
+
 end WebrtcVerif.C40
